@@ -147,7 +147,7 @@ extra15 = {
  "C10": "; a Clean whose 1st .. 6th storage call fails (reports unchanged, later submissions follow the reference tree)",
  "C11": "; a side branch of many light headers taller than the heavier best chain by more than the restart keeps",
  "C15": "; reject messages for 14 commands x 4 codes at every stage; nine well-formed messages sent twice and three times in a row in three stages (Run must return)",
- "C16": "; a source whose block arrives while the manager is inside its next call to the requestor",
+ "C16": "; a source whose block arrives while the manager is inside its next call to the requestor; twelve AddRequest calls on a silent source (queue full, the twelfth blocked) and an interrupt: Run returns through the interrupt",
  "C18": "; proofs for blocks of the real chain (556000..557500, cleaned keeping 300) while a header is marked invalid and pruned history has been brought back from the header files: true height and best-chain flag, with header and by hash (powenum part, merged)",
  "C20": "; books of 999..2003 peers with every range query counted against the scores, before and after Save + Load",
 }
